@@ -25,6 +25,19 @@ pub struct NameVolume {
     /// exits (0 = none), and whether that value is created before the thread's first ordinary call.
     #[serde(default)]
     pub exit_calls: Vec<(usize, bool)>,
+    /// (step, directory): before that step the process's TMPDIR is pointed at directory 0 (the original one),
+    /// 1 or 2 (two scratch directories). Switching away and back must not bring old names back.
+    #[serde(default)]
+    pub tmp_switch: Vec<(usize, u8)>,
+}
+
+/// Restores TMPDIR when the scenario ends, whichever way it ends.
+struct TmpDirGuard(Option<std::ffi::OsString>, bool);
+impl Drop for TmpDirGuard {
+    fn drop(&mut self) {
+        if !self.1 { return; }
+        match &self.0 { Some(v) => std::env::set_var("TMPDIR", v), None => std::env::remove_var("TMPDIR") }
+    }
 }
 
 struct ExitGuard {
@@ -57,7 +70,7 @@ impl NameVolume {
         if rng.chance(1, 12) { return NameVolume::generate_crowd(rng); }
         let threads = rng.range_usize(2, 6);
         // "<TMP>" stands for the temporary directory: different spellings of one path.
-        const PARTS: [&str; 17] = ["", "_", "a", "tmp_0_0", "7", "x_1", "index.gbz", "v1.2", ".", "x", "./x", "<TMP>/x", "Vec<u64>", "a:b", "what?", "tab\there", "star*|\"q\""];
+        const PARTS: [&str; 21] = ["", "_", "a", "tmp_0_0", "7", "x_1", "index.gbz", "v1.2", ".", "x", "./x", "<TMP>/x", "Vec<u64>", "a:b", "what?", "tab\there", "star*|\"q\"", "{pid}", "shard-{count}", "{name}_{pid}_{count}", "{}"];
         let same = rng.chance(1, 2);
         let long = |rng: &mut Rng| -> String { let n = *rng.pick(&[200usize, 245, 250, 255, 300]); let mut s = String::from("long-"); while s.len() < n { s.push((b'a' + (s.len() % 26) as u8) as char); } s };
         let first = if rng.chance(1, 10) { long(rng) } else { rng.pick(&PARTS).to_string() };
@@ -84,7 +97,14 @@ impl NameVolume {
             cursor[t] += 1;
         }
         let exit_calls: Vec<(usize, bool)> = (0..threads).map(|_| if rng.chance(1, 4) { (rng.range_usize(1, 40), rng.bool()) } else { (0, false) }).collect();
-        NameVolume { parts, schedule, exit_calls }
+        // One history in five moves the temporary directory away and back while names are being handed out.
+        let mut tmp_switch = Vec::new();
+        if rng.chance(1, 5) && schedule.len() >= 2 {
+            let pattern: &[u8] = *rng.pick(&[&[1u8, 0][..], &[1, 2, 1][..], &[1, 0, 1, 0][..], &[2, 0][..]]);
+            let mut at = 0usize;
+            for d in pattern { at = rng.range_usize(at + 1, schedule.len().max(at + 2)); tmp_switch.push((at, *d)); }
+        }
+        NameVolume { parts, schedule, exit_calls, tmp_switch }
     }
 
     /// 1030-2100 threads that each request one to three names with the same name part; mostly one after another,
@@ -100,13 +120,15 @@ impl NameVolume {
             if t < threads { schedule.push((t, 1)); }
             if t >= overlap { schedule.push((t - overlap, rng.range_usize(1, 2))); }
         }
-        NameVolume { parts: vec![part; threads], schedule, exit_calls: Vec::new() }
+        NameVolume { parts: vec![part; threads], schedule, exit_calls: Vec::new(), tmp_switch: Vec::new() }
     }
 
     pub fn run(&self, prop: &str) -> Outcome {
         let mut out = Outcome::default();
         out.stats.evaluations = 1;
         let n = self.parts.len();
+        let tmp0 = std::env::temp_dir();
+        let _restore = TmpDirGuard(std::env::var_os("TMPDIR"), !self.tmp_switch.is_empty());
         let last_step: Vec<Option<usize>> = (0..n).map(|t| self.schedule.iter().rposition(|(u, _)| *u == t)).collect();
         let mut workers: Vec<Option<(mpsc::Sender<Cmd>, mpsc::Receiver<Vec<String>>, std::thread::JoinHandle<()>)>> = (0..n).map(|_| None).collect();
         let mut all: Vec<(usize, String)> = Vec::new();
@@ -116,11 +138,17 @@ impl NameVolume {
         let mut exit_while_others_alive = false;
         for (i, (t, k)) in self.schedule.iter().enumerate() {
             if *t >= n { return out.fail(Violation::new(prop, "harness", "namesim", "bad thread index".into())); }
+            for (_, d) in self.tmp_switch.iter().filter(|(at, _)| *at == i) {
+                // Only the harness thread runs here: every worker is parked on its channel.
+                let dir = if *d == 0 { tmp0.clone() } else { let p = crate::scratch::dir().join(format!("tmpdir-{}", d)); let _ = std::fs::create_dir_all(&p); p };
+                std::env::set_var("TMPDIR", &dir);
+                out.stats.fault("E1-TMPDIR switched between calls", 1);
+            }
             if workers[*t].is_none() {
                 if i > 0 && workers.iter().any(|w| w.is_some()) { late_start = true; }
                 let (cmd_tx, cmd_rx) = mpsc::channel::<Cmd>();
                 let (res_tx, res_rx) = mpsc::channel::<Vec<String>>();
-                let part = self.parts[*t].replace("<TMP>", &std::env::temp_dir().to_string_lossy());
+                let part = self.parts[*t].replace("<TMP>", &tmp0.to_string_lossy());
                 let (exit_k, guard_first) = self.exit_calls.get(*t).cloned().unwrap_or((0, false));
                 let sink = exit_sinks[*t].clone();
                 let h = std::thread::spawn(move || {
@@ -170,7 +198,7 @@ impl NameVolume {
         let mut seen: BTreeSet<&str> = BTreeSet::new();
         for (t, name) in all.iter() {
             // A name part with a directory separator can only be looked for in the whole path.
-            let part = self.parts[*t].replace("<TMP>", &std::env::temp_dir().to_string_lossy());
+            let part = self.parts[*t].replace("<TMP>", &tmp0.to_string_lossy());
             let file = std::path::Path::new(name).file_name().map(|f| f.to_string_lossy().into_owned()).unwrap_or_default();
             let found = if part.contains('/') { name.contains(part.as_str()) } else { file.contains(part.as_str()) };
             if !found {
@@ -192,6 +220,8 @@ impl NameVolume {
         out.stats.probe_if(exit_while_others_alive, "a thread exited while others were still alive");
         out.stats.probe_if(alive_max >= 3, "three or more threads alive at once");
         out.stats.probe_if(n > 1024, "more than 1024 threads in one process");
+        out.stats.probe_if(self.tmp_switch.len() >= 2 && self.tmp_switch.iter().any(|(at, _)| *at < self.schedule.len()), "TMPDIR moved away and back while names were handed out");
+        out.stats.probe_if(self.parts.iter().any(|p| p.contains('{')), "name parts that look like format placeholders");
         out
     }
 
@@ -206,6 +236,7 @@ impl NameVolume {
         let n = self.parts.len();
         if n > 2 { for t in 1..n { let mut s = self.clone(); for step in s.schedule.iter_mut() { if step.0 == t { step.0 = 0; } else if step.0 > t { step.0 -= 1; } } s.parts.remove(t); if t < s.exit_calls.len() { s.exit_calls.remove(t); } out.push(s); } }
         for i in 0..self.parts.len() { if self.parts[i] != "a" { let mut s = self.clone(); s.parts[i] = "a".into(); out.push(s); } }
+        if !self.tmp_switch.is_empty() { let mut s = self.clone(); s.tmp_switch.clear(); out.push(s); for i in 0..self.tmp_switch.len() { let mut s = self.clone(); s.tmp_switch.remove(i); out.push(s); } }
         for i in 0..self.exit_calls.len() { if self.exit_calls[i].0 > 0 { let mut s = self.clone(); s.exit_calls[i].0 = 0; out.push(s); if self.exit_calls[i].0 > 1 { let mut s = self.clone(); s.exit_calls[i].0 = 1; out.push(s); } } }
         out
     }
